@@ -238,7 +238,10 @@ func c01Searches(p *run.Part, tier string) []*seqx.Search {
 	}
 	return []*seqx.Search{mk(CfgDef3, "", depth), mk(CfgHash3, "", depth), mk(CfgShared3, "", depth-1), mk(CfgSharedH, "", depth-1),
 		mk(CfgDef3, "+fork12", 2), mk(CfgHash3, "+tri4", 2),
-		mk(CfgDef3, "+ab-merged", depth-1), mk(CfgDef3, "+abc", depth-1), mk(CfgDef3, "+a-spread", depth-1), mk2(mk, depth+2), mkEmpty(mk, CfgDef3, depth-1)}
+		mk(CfgDef3, "+ab-merged", depth-1), mk(CfgDef3, "+abc", depth-1), mk(CfgDef3, "+a-spread", depth-1), mk2(mk, depth+2), mkEmpty(mk, CfgDef3, depth-1),
+		// replicas whose clocks run ahead of their heads (small gaps; a thousand ticks and beyond 2^53): an honest entry may be
+		// stamped any number of ticks after its predecessors
+		mk(CfgGap3, "", depth-2), mk(CfgClk3, "", depth-2)}
 }
 
 func init() {
